@@ -20,11 +20,19 @@ inductive Member where
   | cs (n : Nat)        -- `y=$( exit N )`
   deriving Repr
 
+/-- operand of `wait` in a program: the K-th asynchronous list (`$jK`), a pid that never was a child,
+    a job ID naming no job -/
+inductive WOp where
+  | job (k : Nat)
+  | unknownPid
+  | unknownJobId
+  deriving Repr
+
 inductive Stmt where
   | pf (on : Bool)
   | pipe (neg : Bool) (ms : List Member)
   | bg (ms : List Member)
-  | wj (ks : List Nat)
+  | wj (ops : List WOp)
   | w
   | wu
   | g (n : Nat)
@@ -84,8 +92,11 @@ structure St where
   runs : Nat := 0
   sys : Sys := { children := [] }
   pf : Bool := false
-  /-- asynchronous jobs not yet waited for: job number, child index, true status -/
+  /-- every asynchronous list so far: job number, pid (model column: child index; spec column: the job
+      number), true status -/
   jobs : List (Nat × Nat × Nat) := []
+  /-- the job table: pids of the jobs not yet removed by `wait` -/
+  active : List Nat := []
   nasync : Nat := 0
   status : Nat := 0
   x : String := ""
@@ -119,29 +130,57 @@ def St.members (st : St) (ms : List Member) : List Nat :=
     | m :: t => memberStatus st.useSys st.digits (st.runs * 8 + k) m :: go (k + 2) t
   go 0 ms
 
-/-- `wait_while_running(job_status(index))`: consult the job's recorded state, else
-    `wait_for_any_job_or_trap` and look again -/
-def St.awaitJob : Nat → St → Nat → St × Nat
-  | 0, st, _ => (st, 998)
+/-- `wait_while_running(job_status(index))`: `jobStatus` on the job table, else
+    `wait_for_any_job_or_trap` (request `wait(-1)` of the model) and look again.  `none` = the built-in
+    fails ("no job to wait for") or the model does not terminate. -/
+def St.awaitJob : Nat → St → Nat → St × Option WaitRes
+  | 0, st, _ => (st, none)
   | f + 1, st, idx =>
-    match st.sys.log.find? (fun e => e.1 == idx) with
-    | some (_, r) => (st, r.status)
+    match jobStatus st.active st.sys.log idx with
+    | some (res, jobs') => ({ st with active := jobs' }, some res)
     | none =>
       let st' := st.exec [.wait .any]
       match st'.sys.results with
-      | .echild :: _ => (st', 997)
+      | .echild :: _ => (st', none)
       | _ => St.awaitJob f st' idx
 
-def St.waitJob (st : St) (k : Nat) : St × Nat :=
-  match st.jobs.find? (fun j => j.1 == k) with
-  | none => (st, if st.useSys then waitStatus .echild else Spec.wait none)
-  | some (_, idx, truth) =>
-    let st1 := { st with jobs := st.jobs.filter (fun j => j.1 != k) }
-    if st.useSys then St.awaitJob 64 st1 idx else (st1, Spec.wait (some truth))
-
-def St.waitJobs : St → List Nat → Nat → St × Nat
+/-- `Command::await_jobs`, the loop over the resolved operands: `None → NOT_FOUND`, `Some(index) →
+    wait_while_running`; the exit status is that of the last operand (998 = the built-in failed) -/
+def St.awaitJobs : St → List (Option Nat) → Nat → St × Nat
   | st, [], last => (st, last)
-  | st, k :: ks, _ => let (st1, v) := st.waitJob k; St.waitJobs st1 ks v
+  | st, none :: t, _ => St.awaitJobs st t (waitStatus .echild)
+  | st, some idx :: t, _ =>
+    match St.awaitJob 64 st idx with
+    | (st1, some res) => St.awaitJobs st1 t (waitStatus res)
+    | (st1, none) => (st1, 998)
+
+def St.pidOf (st : St) : WOp → Option Nat
+  | .job k => (st.jobs.find? (fun j => j.1 == k)).map (·.2.1)
+  | .unknownPid => some 99999
+  | .unknownJobId => none
+
+def St.truth (st : St) (pid : Nat) : Nat :=
+  ((st.jobs.find? (fun j => j.2.1 == pid)).map (·.2.2)).getD 999
+
+/-- `wait operands…` -/
+def St.waitOps (st : St) (ops : List WOp) : St :=
+  if st.useSys then
+    -- `Command::execute`: resolve every operand first, then await
+    let operands : List Operand := ops.map fun o => match st.pidOf o with
+      | some p => Operand.pid p
+      | none => Operand.jobId
+    let (st1, v) := St.awaitJobs st (operands.map (resolve st.active)) 0
+    { st1 with status := v }
+  else
+    let (v, active) := Spec.waitOps st.truth st.active (ops.map st.pidOf) 0
+    { st with status := v, active := active }
+
+/-- `wait` without operands: every job in the table -/
+def St.waitAllJobs (st : St) : St :=
+  if st.useSys then
+    let (st1, v) := St.awaitJobs st (st.active.map some) 0
+    { st1 with status := if v = 998 then 998 else 0, active := if v = 998 then st1.active else [] }
+  else { st with status := 0, active := [] }
 
 def St.subshell (st : St) (v : Nat) : St :=
   let (st1, got) := st.forkWait [v]
@@ -164,13 +203,11 @@ def St.stmt (st : St) : Stmt → St
     let k := st.nasync + 1
     if st.useSys then
       let (st1, idx) := st.fork [v]
-      { st1 with jobs := st1.jobs ++ [(k, idx, v)], nasync := k, status := 0 }
-    else { st with jobs := st.jobs ++ [(k, 0, v)], nasync := k, status := 0 }
-  | .wj ks => let (st1, v) := st.waitJobs ks 0; { st1 with status := v }
-  | .w =>
-    let (st1, _) := st.waitJobs (st.jobs.map (·.1)) 0
-    { st1 with status := 0 }
-  | .wu => { st with status := if st.useSys then waitStatus .echild else Spec.wait none }
+      { st1 with jobs := st1.jobs ++ [(k, idx, v)], active := st1.active ++ [idx], nasync := k, status := 0 }
+    else { st with jobs := st.jobs ++ [(k, k, v)], active := st.active ++ [k], nasync := k, status := 0 }
+  | .wj ops => st.waitOps ops
+  | .w => st.waitAllJobs
+  | .wu => st.waitOps [.unknownPid]
   | .g n => st.subshell n
   | .gg n => st.subshell ((nestedWait st.useSys st.digits (st.runs + 1) [n]).getD 0 999)
   | .gp ms =>
